@@ -23,10 +23,13 @@ META = {
             "parser's AST.",
     "design_ref": "DESIGN.md §3 C04",
     "level_note": "Trusted: Lean kernel; hand transcription of as_const/eval_binop/eval_compare, compile_expr/compile_bin_op/"
-                  "compile_compare/compile_call_args and the VM handlers into MJ/Model/Fold.lean (validated by the differential "
-                  "streams, not extracted). The theorems assume Prims.Lawful (no operation returns undefined, is_true(Bool b)=b, "
-                  "contains returns a bool) and Expr.WF (no undefined constant, Compare has >=1 operator) - both checked on every "
-                  "harness case only. The concrete value operations (MJ/Model/FoldPrims.lean) are validated only where transcribed: "
+                  "compile_compare/compile_call_args and the VM handlers into MJ/Model/Fold.lean (the operator tables of "
+                  "eval_binop/eval_compare/compile_bin_op/emit_compare/compare_op/func_binop!/op_binop!/CompareAndPreserve are "
+                  "regenerated from the source and proved equal to the model's; the rest - as_const's traversal, evaluation order, "
+                  "jump structure - is validated by the differential streams). The theorems assume Prims.Lawful (no operation returns undefined, is_true(Bool b)=b, "
+                  "contains returns a bool) - proved for the model's transcription of value/ops.rs (concrete_prims_lawful), for the "
+                  "real ops.rs only validated through the value correspondence - and Expr.WF (no undefined constant, Compare has >=1 "
+                  "operator), checked on the real parser's AST of every harness case. The concrete value operations (MJ/Model/FoldPrims.lean) are validated only where transcribed: "
                   "integers >= 2^127 in arithmetic/comparison, NaN, float // % **, float text are reported unmodelled and covered "
                   "by the hoisting oracle alone. Filters/tests/attribute access/if-expressions/slices are outside the fragment.",
 }
@@ -82,7 +85,8 @@ def run(r):
     r.assumptions = ["context variables hold exactly the Value the front end builds for the literal (obtained by evaluating the literal alone)",
                      "the callee of a call does not depend on how its keyword arguments were built (the harness' callee returns them)",
                      "expressions deeper than 5 / with filters, tests, attribute access, slices, if-expressions are outside the box"]
-    r.regen_tables()
+    r.regen_tables(["C04_BINOP_KINDS", "C04_FOLD_BINOP", "C04_FOLD_COMPARE", "C04_FOLD_UNARY", "C04_CODEGEN_BINOP",
+                    "C04_CODEGEN_COMPARE", "C04_VM_BINOP"])
     r.lean_prove("MJ.Props.C04", "MJ/Audit/C04.lean", extra_targets=["drive_c04"])
     exe = r.cargo_build("c04")
     if exe is None:
@@ -138,9 +142,12 @@ def run(r):
             continue
         fold_impl = c["fold"]
         code_impl = c["code"]
-        if (fold_impl == "none") != (code_impl == "rt") or (fold_impl != "none" and fold_impl[5:] != code_impl[6:]):
-            r.model_disagreement(key, f"as_const={fold_impl} but instruction stream={code_impl}",
-                                 "model: code generator emits LoadConst(v) iff as_const = some v")
+        # the model says: LoadConst(v) is emitted only for v = as_const.  (Folding *less* than as_const allows is harmless.)
+        if code_impl != "rt" and (fold_impl == "none" or fold_impl[5:] != code_impl[6:]):
+            r.model_disagreement(key, f"instruction stream={code_impl} but as_const={fold_impl}",
+                                 "model: code generator emits LoadConst(v) only for as_const = some v")
+        if code_impl == "rt" and fold_impl != "none":
+            r.hist["model"]["as_const folds, code generator does not"] += 1
         if model is None:
             continue
         m = model[i]
@@ -155,8 +162,13 @@ def run(r):
             r.hist["model"]["unmodelled primitive"] += 1
             continue
         r.hist["model"]["compared"] += 1
-        if d["fold"] != fold_impl:
-            r.model_disagreement(key, "as_const " + fold_impl, "asConst " + d["fold"])
+        # every constant the real folder / code generator produces must be the one the (proved sound) model
+        # folder produces; a real folder that gives up where the model folds is a harmless difference
+        for what, impl in (("as_const", fold_impl), ("LoadConst", "none" if code_impl == "rt" else "some " + code_impl[6:])):
+            if impl != "none" and impl != d["fold"]:
+                r.model_disagreement(key, what + " " + impl, "asConst " + d["fold"])
+            elif impl == "none" and d["fold"] != "none":
+                r.hist["model"][what + " gives up where the model folds"] += 1
         if d["comp"] != c["vallit"]:
             r.model_disagreement(key, "all-literal eval " + c["vallit"], "evalC " + d["comp"])
         if d["rt"] != c["valhoist"]:
